@@ -378,6 +378,18 @@ func (r *Run) runCase(hc harnessCase) *JobResult {
 	err := protect(func() {
 		x = NewExec(r.ld)
 		x.tier = r.o.Tier
+		if cf := os.Getenv("VX_CONCRETE"); cf != "" {
+			var rep struct {
+				Model map[string]string `json:"model"`
+			}
+			if b, err := os.ReadFile(cf); err == nil && json.Unmarshal(b, &rep) == nil {
+				x.c.Concrete = map[string]uint64{}
+				for k, v := range rep.Model {
+					u, _ := strconv.ParseUint(v, 10, 64)
+					x.c.Concrete[k] = u
+				}
+			}
+		}
 		var args []Value
 		if hc.k >= 0 {
 			args = append(args, x.c.Const(64, uint64(hc.k)))
@@ -440,6 +452,10 @@ func (r *Run) solveJob(x *Exec, jr *JobResult) {
 	x.prefQ = prefQ
 	mkq := func(n int, cond *Term) (*Query, *Query) {
 		rel, rest := vs.sliceAssumptions(x.assumes[:n], cond)
+		if len(x.traceEqs) > 0 { // VX_TRACE: intermediate values become part of the model
+			rel = append(append([]*Term(nil), x.assumes[:n]...), x.traceEqs...)
+			rest = nil
+		}
 		q := c.BuildQuery(append(rel, cond))
 		var rq *Query
 		if len(rest) > 0 {
